@@ -3,21 +3,14 @@ C08 — Error reporter contract (reporter.Handler).
 All theorems are for an ARBITRARY reporter function `rep` and arbitrary op histories.
 -/
 import PCV.Model.Reporter
+import PCV.Spec.Reporter
 import PCV.Gen.LockSites
 namespace PCV.Props.C08
-open PCV.Reporter
+open PCV.Reporter PCV.Spec.Reporter
 
 variable (rep : Nat → Err → Option Err)
 
 /-! ### The root state is a function of the sequence of handled errors only -/
-
-/-- Abstract spec of the root: fold over the handled errors `(withPos, e)`. -/
-def specStep (r : HState × List Err) (x : Bool × Err) : HState × List Err :=
-  match r.1.err with
-  | some _ => r
-  | none =>
-    if x.1 then ({ errsReported := true, err := rep r.2.length x.2 }, r.2 ++ [x.2])
-    else ({ r.1 with err := some x.2 }, r.2)
 
 def handled (nch : Nat) : List Op → List (Bool × Err)
   | [] => []
